@@ -678,3 +678,30 @@ def replay_xm3(w, judge):
     res, _, _ = judge_xm3(w["seqs"], w.get("second_first", False), judge)
     msgs = [m for k, m, _ in res if w.get("key") in (None, k)]
     return "\n".join(msgs[:6]) if msgs else None
+
+
+# =================================================================================================== shipped corpus
+SHIPPED_APKS = ("hello-world.apk", "TestActivity.apk", "multidex.apk")
+
+
+def shipped_groups(repo):
+    """[(name, [(member name, bytes)...])]: every tests/data/APK/*.dex alone, the DEX files of three APKs together."""
+    import glob
+    import os
+    import zipfile
+    out = []
+    base = os.path.join(repo, "tests", "data", "APK")
+    for p in sorted(glob.glob(os.path.join(base, "*.dex"))):
+        with open(p, "rb") as f:
+            raw = f.read()
+        if raw[:4] == b"dex\n":
+            out.append((os.path.basename(p), [(os.path.basename(p), raw)]))
+    for a in SHIPPED_APKS:
+        try:
+            z = zipfile.ZipFile(os.path.join(base, a))
+        except OSError:
+            continue
+        names = sorted((n for n in z.namelist() if n.startswith("classes") and n.endswith(".dex")),
+                       key=lambda n: (len(n), n))
+        out.append((a, [(n, z.read(n)) for n in names]))
+    return out
